@@ -93,7 +93,7 @@ type c04Prog struct {
 
 func c04Template(r *fw.RNG, k int) c04Prog {
 	n := r.Range(1, 6)
-	switch k % 12 {
+	switch k % 14 {
 	case 0:
 		var sb strings.Builder
 		for i := 0; i < n+2; i++ {
@@ -120,6 +120,11 @@ func c04Template(r *fw.RNG, k int) c04Prog {
 		return c04Prog{name: "handler-bind", swallows: true, src: fmt.Sprintf("(verif:probe 'hb (handler-bind ((condition (lambda (c &rest a) (verif:probe 'handler c) 'handled))) (dotimes (i %d) (verif:probe 'in i)) 'body-done))\n(verif:probe 'after 1)\n", n+1)}
 	case 10:
 		return c04Prog{name: "closures", src: fmt.Sprintf("(set 'mk (lambda (k) (lambda (x) (verif:probe 'call (+ x k)))))\n(set 'fs (map 'list mk (make-sequence 0 %d)))\n(map () (lambda (f) (funcall f 10)) fs)\n(verif:probe 'end (length fs))\n", n)}
+	case 12:
+		// a load called from a non-root environment runs under the same limits
+		return c04Prog{name: "nested-load-in-let", src: fmt.Sprintf("(verif:probe 'outer 1)\n(let ((x 1)) (load-string \"(verif:probe 'inner 1) (dotimes (i %d) (verif:probe 'in i)) (verif:probe 'inner-after 2)\") (verif:probe 'let-after x))\n(verif:probe 'outer-after 3)\n", n+1)}
+	case 13:
+		return c04Prog{name: "nested-load-in-function", src: fmt.Sprintf("(defun ld (s) (verif:probe 'ld 0) (load-bytes (to-bytes s)) (verif:probe 'ld-after 1))\n(ld \"(dotimes (i %d) (verif:probe 'in i))\")\n(map () (lambda (s) (load-string s)) (list \"(verif:probe 'm 1)\" \"(verif:probe 'm (+ 1 1))\"))\n(verif:probe 'end 2)\n", n+1)}
 	default:
 		return c04Prog{name: "let-flet-cond", src: fmt.Sprintf("(let* ([a %d] [b (verif:probe 'b (+ a 1))]) (flet ((h (x) (verif:probe 'h (* x b)))) (cond ((> a 100) 'big) ((verif:probe 'test (= a %d)) (h a)) (else 'no))))\n", n, n)}
 	}
@@ -478,6 +483,23 @@ func c04OtherLimits(w *fw.W, idx int) {
 		return
 	}
 	w.CoverKey("sleep-cancel")
+	// a load called from any environment (top level, let, function, callback, handler)
+	// is cancelled like the evaluation that called it
+	for _, shape := range []string{"%s", "(let ((x 1)) %s)", "(progn (defun f () %s 1) (f))", "(map () (lambda (x) %s) '(1))", "(flet ((g () %s)) (g))", "(handler-bind ((my-err (lambda (c &rest a) 0))) %s)"} {
+		for _, loader := range []string{`(load-string "(dotimes (i 5000) (verif:probe 'in i))")`, `(load-bytes (to-bytes "(dotimes (i 5000) (verif:probe 'in i))"))`} {
+			src := fmt.Sprintf(shape, loader)
+			for _, k := range []int{30, 200} {
+				r5 := rt.New(rt.Opts{})
+				t5 := r5.RunCtx(newScriptedCtx(k), "nl", src)
+				w.Eval(1)
+				if !t5.IsErr || t5.Cond != "context-cancelled" || len(t5.Trace) >= k {
+					w.Violation("nested-load-ignores-cancellation", fmt.Sprintf("cancel at step %d: %s %s after %d steps and %d loop turns", k, t5.Outcome(), t5.Msg, t5.Steps, len(t5.Trace)), src)
+					return
+				}
+				w.CoverKey(fmt.Sprintf("nested-load-cancel|%s|%s|k=%d", shape, loader[:12], k))
+			}
+		}
+	}
 	// empty dotimes under cancellation at step k
 	for _, k := range []int{2, 3, 10, 50} {
 		ctx := newScriptedCtx(k)
@@ -514,7 +536,7 @@ func (c *c04DoneCtx) Err() error {
 // c04Refill: every new top-level evaluation starts with a full budget.
 func c04Refill(w *fw.W, idx int) {
 	r := w.RNG(idx, "refill")
-	p := c04Template(r, r.Intn(12))
+	p := c04Template(r, r.Intn(14))
 	full := c04Exec(p.src, rt.Opts{}, newScriptedCtx(0))
 	N := full.t.Steps
 	if N == 0 || N > 5000 || c02LimitErr(full.t) {
